@@ -35,7 +35,7 @@ def main():
         os.makedirs(d, exist_ok=True)
     os.environ['HOME'] = os.path.join(root, 'home')
     os.environ['JV_SENTINEL_DIR'] = sentinel
-    os.chdir(root)
+    os.chdir(os.path.join(root, spec['cwd']) if spec.get('cwd') else root)
 
     gc_auto = spec.get('gc_auto', False)
     if not gc_auto:
@@ -220,6 +220,8 @@ class Subject:
             bad = self.check_invariants(op)
             if bad:
                 ev['inv_bad'] = bad
+            if 'snap' in self.inv:
+                ev['snap'] = self.last_snap
             ev['now'] = self.clock.ns
             out.write(json.dumps(ev, sort_keys=True) + '\n')
             out.flush()
@@ -282,6 +284,8 @@ class Subject:
         if proj is not None:
             kw['project'] = proj
         code = op.get('code')
+        if code is not None and '<<W>>' in code:
+            code = code.replace('<<W>>', self.world)
         if code is None and op.get('path') is not None:
             return self.jedi.Script(**kw)       # read from disk
         return self.jedi.Script(code, **kw)
@@ -456,7 +460,7 @@ class Subject:
     def describe_refactoring(self, r):
         files = {}
         for p, cf in sorted(r.get_changed_files().items(), key=lambda kv: str(kv[0])):
-            files[self.canon.path(p)] = cf.get_new_code()
+            files[self.canon.path(p) or '<pathless>'] = cf.get_new_code()
         renames = [[self.canon.path(a), self.canon.path(b)] for a, b in r.get_renames()]
         return {'files': files, 'renames': renames, 'diff': self.canon.text(r.get_diff())}
 
@@ -653,6 +657,12 @@ class Subject:
                         bad.append(['helper_cwd'])
                     if hm:
                         bad.append(['helper_modules', hm[:5]])
+        if 'snap' in inv:
+            import hashlib
+            snap = {}
+            for k, v in self.fs_snapshot().items():
+                snap[k] = None if v is None else hashlib.sha1(v.encode('utf-8', 'surrogateescape')).hexdigest()[:12]
+            self.last_snap = snap
         if 'zombie' in inv:
             # a helper whose death the host has observed must have been reaped
             for g in self.proxy.generations:
